@@ -11,6 +11,7 @@ import (
 type Msg struct {
 	Data []byte
 	Park bool // Marshal parks at the encoding's M gate (a slow user marshaller, under the stream's write lock)
+	Fail bool // Marshal fails (a message the encoding cannot marshal)
 }
 
 // GateEnc is a drpc.Encoding whose Unmarshal (and optionally Marshal) can park at a gate, so that
@@ -27,8 +28,14 @@ func (e *GateEnc) Marshal(m drpc.Message) ([]byte, error) {
 	if e.ArmM.Load() || m.(*Msg).Park {
 		e.M.Wait()
 	}
+	if m.(*Msg).Fail {
+		return nil, ErrMarshal
+	}
 	return m.(*Msg).Data, nil
 }
+
+// ErrMarshal is returned by GateEnc.Marshal for messages marked Fail.
+var ErrMarshal = errors.New("verif: cannot marshal message")
 
 // Unmarshal parks if armed and only then copies the bytes: a slow decoder reads the buffer the
 // library lent it for as long as it runs, so a buffer that is reused too early shows up as a
